@@ -65,6 +65,7 @@ type ProxyParams struct {
 	NoRoutesYet  bool         // the listener's router configuration exists but has no virtual hosts yet (route discovery pending): every request gets MOSN's own reply
 	GoAwayHeavy  bool         // bolt upstreams announce go-away on a quarter of their exchanges (C09/C03/C10 arms)
 	H2Stream     bool         // HTTP/2: the proxy forwards in stream mode (http2_use_stream: header block and body chunks as they come)
+	H2Stingy     bool         // HTTP/2 fault arms: the upstreams advertise a tiny window and never grant credit
 	H2Malformed  bool         // HTTP/2: some header blocks carry a malformed field in their middle
 	H2Trailers   bool         // HTTP/2: a third of the messages with a body end with trailing header fields
 	ClientHB     bool         // xprotocol clients send heartbeat requests of their own between their requests (MOSN answers them itself)
@@ -284,6 +285,9 @@ func DrawProxyParams(ch *sim.Choices, prop string) ProxyParams {
 				}
 			}
 		}
+	}
+	if p.Proto == "http2" && p.Faults && (prop == "C03" || prop == "C10") {
+		p.H2Stingy = ch.Chance("params", "h2stingy", 1, 4)
 	}
 	if p.Proto == "http2" && (prop == "C01" || prop == "C18" || prop == "C07") {
 		p.H2Stream = ch.Chance("params", "h2stream", 1, 3)
